@@ -30,7 +30,20 @@ def check_case(rep, case, name):
     elif what == 'table-vs-form':
         tables[0] = (rng.choice(['f', 'g']), tables[0][1]); dup_desc = 'table form and formula named %s' % tables[0][0]
     elif what == 'table-vs-builtin':
-        tables[0] = ('as.buck', tables[0][1]); dup_desc = 'table form named as.buck'
+        bn = rng.choice(['as.buck', 'as.buck4', 'as.zero', 'as.polynomial', 'as.buck4']); tables[0] = (bn, tables[0][1]); dup_desc = 'table form named %s' % bn
+    elif what == 'added-item':
+        # an item added through ConfigParser(additional=...) / --add-item whose key is another spelling of a key of the file
+        from atsim.potentials.config._config_parser import ConfigParserOverrideTuple
+        sec = rng.choice(['Pair', 'EAM-Embed', 'Potential-Form'])
+        k, v = rng.choice(secs[sec]); alt = rng.choice([k] + variants(k, rng)) if case['variant'] else k
+        if sec == 'Pair' and alt.replace(' ', '').replace('\t', '') != k.replace(' ', ''): alt = k      # (reversed pairs are the parser's second test, after the addition)
+        ini = render([], [(n, e) for n, e in secs.items()] + [('Table-Form:' + n, e) for n, e in tables])
+        try:
+            tabulate_text(None, ConfigParser(io.StringIO(ini), additional=[ConfigParserOverrideTuple(sec, alt, v)]))
+            rep.dev(name, case, 'accepted silently: item [%s] %r added next to %r' % (sec, alt, k), 'configuration error')
+        except ConfigurationException: rep.ok()
+        except Exception as e: rep.dev(name, case, '%s: %s' % (type(e).__name__, str(e)[:80]), 'configuration error')
+        return
     ini = render([], [(n, e) for n, e in secs.items()] + [('Table-Form:' + n, e) for n, e in tables])
     try:
         tabulate_text(ini)
@@ -44,7 +57,7 @@ if __name__ == '__main__':
     if pl.get('mode') == 'replay': rep.case('replay', pl['input']); check_case(rep, pl['input'], 'replay')
     else:
         rng = random.Random(pl.get('seed', 0))
-        kinds = ['pair', 'embed', 'density', 'fsdensity', 'form', 'tableform', 'table-vs-form', 'table-vs-builtin']
+        kinds = ['pair', 'embed', 'density', 'fsdensity', 'form', 'tableform', 'table-vs-form', 'table-vs-builtin', 'added-item']
         for i in range(pl.get('n', 60)):
             c = dict(what=kinds[i % len(kinds)], seed=rng.randint(0, 10 ** 6), variant=rng.choice([None, 'ws', 'ws']))
             rep.case(c['what'], c); check_case(rep, c, 'seeded-%d' % i)
